@@ -59,6 +59,10 @@ impl DetectProp for C09 {
         if idx % 12 == 11 {
             c = declared_tied_case(rng);
         }
+        if idx % 12 == 7 || idx % 12 == 1 {
+            c = misdeclared_legacy_case(rng);
+            c.sett.fb = false;
+        }
         c
     }
     fn directed(&self, thorough: bool) -> Vec<Case> {
@@ -156,8 +160,27 @@ impl DetectProp for C09 {
                         if v.len() == 1 {
                             cx.rep.count("oracle:accepted-alone-but-missing");
                             // must be explained by a rejected similar code page
+                            // "had already been rejected": the similar page must come before `e` in the probing order
+                            // (self-identified encodings first – declared, marked, ascii, utf-8 – then the table order)
+                            let order: Vec<String> = {
+                                let sig = MARKS.iter().find(|(_, mk)| case.bytes.starts_with(mk)).map(|(e, _)| e.to_string());
+                                let declared = if s.pre { independent_declared(&case.bytes, 4096) } else { None };
+                                let mut o: Vec<String> = vec![];
+                                for h in declared.into_iter().chain(sig.into_iter()).chain(["ascii".to_string(), "utf-8".to_string()]) {
+                                    if supported().contains(&h.as_str()) && !o.contains(&h) {
+                                        o.push(h);
+                                    }
+                                }
+                                for n in supported() {
+                                    if !o.iter().any(|x| x == n) {
+                                        o.push(n.to_string());
+                                    }
+                                }
+                                o
+                            };
+                            let pos = |n: &str| order.iter().position(|x| x == n).unwrap_or(usize::MAX);
                             let explained = supported().iter().any(|f| {
-                                vh::is_cp_similar(e, f) && !all.iter().any(|x| x == f) && (incl.is_empty() || incl.iter().any(|x| x == f)) && {
+                                pos(f) < pos(e) && vh::is_cp_similar(e, f) && !all.iter().any(|x| x == f) && (incl.is_empty() || incl.iter().any(|x| x == f)) && {
                                     let mut s2 = s.clone();
                                     s2.incl = vec![f.to_string()];
                                     matches!(real_detect(&case.bytes, &s2), Outcome::Ok(v) if v.is_empty())
